@@ -22,7 +22,7 @@ from ..ref import c06c07_atoms as A
 PROPERTY = 'C07'
 TIMEOUT = 30.0
 CHUNK = 8
-FLOOR = 0.4
+FLOOR = 0.45
 RULE = ('pin: every (atom, parameter, x0, multiplier, position, front end, interface) of the grids in bounds(); '
         'non-trivial when the solve is optimal and the closed-form value is non-zero. '
         'lat: every C06 spec x interface; non-trivial when optimal, at least one lattice point is feasible and the best '
@@ -209,18 +209,23 @@ def gen_pin(tier, seed):
 
 
 # ---- MILP grammar --------------------------------------------------------------------------------
+def _nominal_box(vts, ib, cb):
+    return [(ib if ch == 'I' else (cb if ch == 'C' else [0.0, 1.0])) for ch in vts]
+
+
 def gen_milp(tier, seed):
+    """Linear mixed-integer models.  Rows are built from the objective so that they cut off the corner of the box
+    the objective pushes to (non-integer right-hand sides): the LP relaxation is fractional, integrality decides."""
     th = tier == 'thorough'
     pal = seed % 4
-    # variable layouts: list of (vtype string, size)
     layouts = [[('I', 2)], [('B', 2)], [('CIB', 3)], [('BIC', 3)], [('ICB', 3)], [('IC', 2), ('B', 1)],
-               [('C', 1), ('IB', 2)], [('I', 3)], [('IIB', 3), ('C', 1)], [('B', 1), ('C', 1), ('I', 1)]]
+               [('C', 1), ('IB', 2)], [('I', 3)], [('IIB', 3), ('C', 1)], [('B', 1), ('C', 1), ('I', 1)],
+               [('CI', 2)], [('BC', 2), ('B', 1)], [('C', 1), ('II', 2)]]
     if th:
         layouts += [[('I', 3), ('B', 2)], [('CBI', 3), ('IB', 2)], [('IBICB', 5)], [('BB', 2), ('III', 3)]]
     ibounds = [[-1.0, 2.0], [0.0, 3.0], [-2.0, 1.0]]
     bbounds = ['none', 'unit', 'ub0', 'lb1', 'loose']
-    coef = [[1.0, 0.5, -0.75, 1.25, -0.5, 0.75], [0.75, -1.0, 0.5, -1.25, 1.0, 0.5],
-            [-0.5, 1.25, 1.0, 0.75, -1.0, -0.75], [1.25, 0.75, -0.5, -1.0, 0.5, 1.0]]
+    wts = [[1.0, 0.5, 1.5, 0.75, 1.25], [0.75, 1.5, 1.0, 1.25, 0.5], [1.5, 1.0, 0.5, 1.0, 0.75], [0.5, 1.25, 0.75, 1.5, 1.0]]
     objs = [[1.0, -1.5, 0.75, 1.25, -0.5, 1.0], [-1.0, 1.25, -0.75, 0.5, 1.5, -1.25], [0.5, 1.0, 1.5, -1.0, 0.75, -0.5]]
     for li, lay in enumerate(layouts):
         nv = sum(sz for _, sz in lay)
@@ -230,13 +235,26 @@ def gen_milp(tier, seed):
             for bb in (bbounds if 'B' in vts else bbounds[:1]):
                 for oi, oc in enumerate(objs if (th or bb in ('none', 'unit')) else objs[:2]):
                     for direction in ('min', 'max'):
+                        c = [oc[(j + li) % 6] for j in range(nv)]
+                        sgn = 1.0 if direction == 'min' else -1.0
+                        box = _nominal_box(vts, ib, [-1.5, 2.25])
                         rows = []
                         for r in range(2):
-                            a = [coef[(pal + r + oi) % 4][(j + r + li) % 6] for j in range(nv)]
-                            rows.append({'a': a, 'rhs': 1.375 + 0.75 * r + 0.25 * nv})
+                            w = wts[(pal + r) % 4]
+                            a = [-sgn * c[j] * w[(j + r + oi) % 5] for j in range(nv)]
+                            hi = sum(max(a[j] * box[j][0], a[j] * box[j][1]) for j in range(nv))
+                            lo = sum(min(a[j] * box[j][0], a[j] * box[j][1]) for j in range(nv))
+                            frac = 0.55 + 0.15 * r
+                            rhs = math.floor((lo + frac * (hi - lo)) * 8) / 8.0 + 0.0625
+                            rows.append({'a': a, 'rhs': rhs})
                         spec = {'lay': [[vt, sz] for vt, sz in lay], 'ib': ib, 'bb': bb, 'cb': [-1.5, 2.25],
-                                'rows': rows, 'c': [oc[(j + li) % 6] for j in range(nv)], 'dir': direction}
-                        solvers = ['def', 'ort', 'grb'] + (['eco'] if nint <= 3 else [])
+                                'rows': rows, 'c': c, 'dir': direction}
+                        solvers = ['def', 'ort', 'grb']
+                        # ECOS_BB (ecos 2.0.14) returns non-binary "booleans" and sub-optimal points as soon as BOTH
+                        # index lists (bool and int) are non-empty - reproducible with raw ecos.solve, i.e. below the
+                        # interface under test - so it only sees pure-integer or pure-binary models
+                        if nint <= 3 and not ('I' in vts and 'B' in vts):
+                            solvers.append('eco')
                         for fe in ('ro', 'dro'):
                             if fe == 'dro' and not th and (oi > 0 or bb not in ('none', 'unit')):
                                 continue
@@ -247,11 +265,7 @@ def gen_milp(tier, seed):
 def gen_lat(tier, seed):
     th = tier == 'thorough'
     for tag, ktag, spec in S.c06_specs(tier, seed):
-        if th and spec['pal'] not in (0, 3) and spec['n'] == 3:
-            continue            # n = 3 lattices (4913 points) on two palettes only (budget)
         for solver in S.solvers_for(spec, th):
-            if solver == 'grb' and th and spec['pal'] not in (0, 2):
-                continue
             yield {'sub': 'lat', 'tag': tag, 'k': ktag, 'solver': solver, 'spec': spec}
 
 
@@ -564,10 +578,8 @@ def run_milp(case):
     nops = 0
     try:
         m = _R['ro'].Model() if fe == 'ro' else _R['dro'].Model()
-        vs = []
-        for vt, sz in spec['lay']:
-            v = m.dvar(sz, vtype=vt)
-            vs.append(v)
+        vs = [m.dvar(sz, vtype=vt) for vt, sz in spec['lay']]     # all declarations first (dro sizes expressions at creation)
+        for v, (vt, sz) in zip(vs, spec['lay']):
             vts = vt * sz if len(vt) == 1 else vt
             for ch in sorted(set(vts)):
                 idx = [j for j, c_ in enumerate(vts) if c_ == ch]
@@ -614,7 +626,7 @@ def run_milp(case):
     if ref is None:
         return {'status': 'violation', 'sig': sig + '|optimal-but-infeasible', 'ops': nops,
                 'detail': 'reported optimum %.9g but no integer point of the user box satisfies the rows' % v}
-    tol = (1e-5 if solver == 'eco' else 1e-6) * (1.0 + abs(ref))
+    tol = (2e-3 if solver == 'eco' else 1e-6) * (1.0 + abs(ref))   # ECOS_BB stops at a 1e-3 relative gap
     if abs(v - ref) > tol:
         return {'status': 'violation', 'sig': sig + '|optimum', 'ops': nops,
                 'detail': 'reported %s %.9g, brute force %.9g (LP relaxation %s); layout %s ib=%s bb=%s' %
